@@ -65,6 +65,15 @@ func (s *JSONDB) Update(dagFile, requestID string, status *model.Status) error {
 	if err != nil {
 		return err
 	}
+	if base := strings.TrimSuffix(f.File, "_c.dat"); base != f.File {
+		// A compaction that was killed before its last step leaves the
+		// original record next to the compacted one. Finish it: otherwise
+		// the update is recorded in one of the two files while the latest
+		// and recent queries may still read the other.
+		if err := os.Remove(base + ".dat"); err == nil {
+			s.cache.Invalidate(base + ".dat")
+		}
+	}
 	w := &writer{target: f.File, mustExist: true}
 	if err := w.open(); err != nil {
 		return err
